@@ -142,6 +142,77 @@ theorem generalPass_eq_pipeline (F : Fn α) (ins : List (InVar α)) (outs : List
             simp only [Option.bind_some, Option.map_some]
             exact ih _ _ _
 
+/-- the same refinement for every sequential method (General, First, Last, Threshold – `eligible` is the method's
+    test on (degree, number selected so far)), with feedback through output variables: the interleaved loop of the
+    executable model is the documented selection pipeline -/
+theorem loopPass_eq_rulesSel (F : Fn α) (ins : List (InVar α)) (outs : List (OutVar α)) (b : Block α)
+    (eligible : X α → Nat → Option Bool)
+    (rs : List (RuleD α × Nat)) (c : Nat) (fz : Fuzzy α) (obs : List (RuleObs α)) :
+    (loopPass F ins outs b eligible rs c (fz, obs)).map (·.1) =
+      rulesSel eligible (rs.map (fun p => toARule F ins outs b p.1)) c fz := by
+  induction rs generalizing c fz obs with
+  | nil => simp [loopPass, rulesSel]
+  | cons p rs ih =>
+    obtain ⟨r, i⟩ := p
+    simp only [loopPass, List.map_cons, rulesSel, toARule]
+    cases hl : r.loaded
+    · simp only [Bool.false_eq_true, if_false]; exact ih _ _ _
+    · simp only [if_true]
+      cases hd : activateWith F ins outs b r fz with
+      | none => simp [Option.bind, bind]
+      | some d =>
+        simp only [Option.bind_eq_bind, Option.bind_some, Option.pure_def]
+        cases hs : eligible d c with
+        | none => simp
+        | some sel =>
+          cases sel
+          · simp only [Option.bind_some, Bool.false_eq_true, if_false]; exact ih _ _ _
+          · simp only [Option.bind_some, if_true]
+            cases he : r.enabled
+            · have ht : trigger F outs b.implication r d fz = some (fz, false) := by simp [trigger, he]
+              simp only [ht, Option.bind_some, Bool.false_eq_true, if_false]
+              exact ih _ _ _
+            · simp only [if_true]
+              cases ht : trigger F outs b.implication r d fz with
+              | none => simp
+              | some q =>
+                obtain ⟨fz', tr⟩ := q
+                simp only [Option.bind_some, Option.map_some]
+                exact ih _ _ _
+
+/-- General is the selection pipeline that selects everything -/
+theorem rulesSel_general {S D : Type} (rs : List (ARule S D)) (c : Nat) (s : S) :
+    rulesSel (fun _ _ => some true) rs c s = rules rs s := by
+  induction rs generalizing c s with
+  | nil => rfl
+  | cons r rs ih =>
+    simp only [rulesSel, rules]
+    cases hl : r.loaded
+    · simp [ih]
+    · simp only [if_true]
+      cases r.deg s with
+      | none => rfl
+      | some d =>
+        cases he : r.enabled
+        · simp [ih]
+        · simp only [if_true]
+          cases r.concl d s <;> simp [ih]
+
+/-- First(n, t): a rule visited when `n` rules have already been selected is never selected (and leaves the state
+    untouched), whatever its degree -/
+theorem first_stops_at_n {S D : Type} (n : Nat) (p : D → Bool) (r : ARule S D) (rs : List (ARule S D)) (c : Nat) (s : S)
+    (hc : n ≤ c) (hd : (r.deg s).isSome = true) :
+    rulesSel (fun d k => some (decide (k < n) && p d)) (r :: rs) c s =
+      rulesSel (fun d k => some (decide (k < n) && p d)) rs c s := by
+  simp only [rulesSel]
+  cases r.loaded
+  · simp
+  · cases h : r.deg s with
+    | none => simp [h] at hd
+    | some d =>
+      have : decide (c < n) = false := by simp; omega
+      simp [this]
+
 /-- activation degree = weight × antecedent -/
 theorem degree_weight (F : Fn α) (ins : List (InVar α)) (outs : List (OutVar α)) (b : Block α) (r : RuleD α)
     (fz : Fuzzy α) :
